@@ -11,7 +11,10 @@ LEAVES = ['role:admin', 'role:%(x)s', 'rule:other', 'rule:a:b', 'user_id:%(user_
           '"quoted":%(k)s', 'True:%(enabled)s', 'a.b.c:x', 'http://host/path', 'https://h/%(id)s', '@', '!',
           'k:', ':v', 'k:v:w', "k:'v'", 'x:(y', 'a:b)c', 'rôle:ádmin', "'a':'b'", '"a":"b"', "'q'", 'nocolon',
           # literal left sides that decide True for the probe target: printing must keep them literals
-          "'admin':%(x)s", '"u":%(user_id)s', "'nope':%(x)s", 'None:%(absent)s', '1:%(one)s']
+          "'admin':%(x)s", '"u":%(user_id)s', "'nope':%(x)s", 'None:%(absent)s', '1:%(one)s',
+          # remote checks whose URL carries everything a URL may: user info, port, query, fragment
+          'http://alice:s3cret@h/check', 'https://u:p@h:8443/%(id)s', 'http://user@h/p', 'http://h:80/p?x=1&y=%(id)s#f',
+          'https://bob:hunter2@h/check', 'http://:@h/', 'http://***:***@h/check']
 ROLESETS = [[], ['admin'], ['other'], ['admin', 'other']]
 
 
